@@ -343,8 +343,12 @@ Definition test_run (env : name -> inst) (p : path) (suite : path) (t : test) (h
   finish (mkRs s4 (rs_failed r3) (rs_children r3) false) [].
 
 Definition test_disabled_out (p : path) : tout := mkTout [AtFire (RTestDisabled p)] [] TkSuccess [].
+(* TestTask.skip: session.skip_test(test, "Test skipped because %s" % reason if reason else None) — a truthiness test:
+   the empty reason (a handler failure without message) gives no status details *)
+Definition shown_reason (r : option Sched.reason) : option Sched.reason :=
+  match r with Some (RHandler true) => None | _ => r end.
 Definition test_skipped_out (p : path) (r : option Sched.reason) : tout :=
-  mkTout [AtFire (RTestSkipped p r); AtFlag FFailure] [] TkSuccess [].
+  mkTout [AtFire (RTestSkipped p (shown_reason r)); AtFlag FFailure] [] TkSuccess [].
 
 (* ---------------- dispatch on the task kind ---------------- *)
 (* the suite at a path, with "an enclosing suite is disabled" *)
